@@ -543,6 +543,9 @@ pub fn corpus() -> Vec<(String, Target)> {
     let raw: Vec<(&str, Target)> = vec![
         ("a: 1\n", Json),
         ("a: 1", Json),
+        // code points at the edges of every UTF-8 length class (lead bytes C2, DF, E0, EF, F0, F3, F4)
+        ("e1: \u{80}\u{7ff}\ne2: \u{800}\u{fffd}\ne3: \u{10000}\u{fffff}\ne4: 'x\u{100000}y\u{10ffff}'\n", Map),
+        ("- \u{10ffff}\n- \u{f0000}\u{3ffff}\n- \u{e000}\u{d7ff}\n", VecS),
         // the last character is a 2-, 3- and 4-byte code point with nothing after it
         ("key: café", Json),
         ("- 日本", VecS),
